@@ -171,8 +171,8 @@ def run_c30(ctx, pid):
     code_tables = [table("sss", "abc"), table("ssp", "aba"), table("sip", "aba"), table("ssi", "aba")]
     if not quick:
         code_tables += [table("sss", "aab"), table("ssp", "abc"), table("iis", "aab"), table("sis", "bac"), table("sssp", "abca"), table("sips", "aaab")]
-    nsel = 150 if quick else 1500
-    nsim = 150 if quick else 1500
+    nsel = 150 if quick else 800
+    nsim = 150 if quick else 800
 
     def dump(tb):
         return tlc(tb, CODE_DEFECTS, "code-dump", invariants=("TypeOK",), view=False, dump_dot=True, workers=2)
@@ -232,7 +232,7 @@ def run_c30(ctx, pid):
         pr = ctx.run([exe, "grain-explore", str(n), str(ctx.seed * 100 + len(mix) + sum(map(ord, mix))), mix, t], timeout=2400)
         return mix, json.loads(pr.stdout.strip().splitlines()[-1]), t
 
-    nexp = 150 if quick else 2500
+    nexp = 150 if quick else 1500
     fut_exp = [pool.submit(explore, mix, nexp) for mix in ("sss", "ssp", "sssp", "ssi", "sip")]
 
     # ---- code -> spec
@@ -397,8 +397,9 @@ def s_steps(lasts):
 
 def classify_c36(hrows, line_idx):
     """NonAtomicPublish on the real trace: the start that makes two instances run at once happened on a node OTHER than the node
-    of the instance already running, and on both nodes the precondition read (ActorExists, as answered by the store) had said
-    'no record' before the node started its instance - i.e. both passed the non-atomic check-then-publish window."""
+    of the instance already running, on both nodes the precondition read (ActorExists, as answered by the store) had said
+    'no record' before the node started its instance, and the second node's read came BEFORE the first node's PutActor - i.e.
+    both went through the non-atomic check-then-publish window."""
     e = hrows[line_idx]
     if e["ev"] != "start":
         return []
@@ -414,11 +415,19 @@ def classify_c36(hrows, line_idx):
     if other["n"] == e["n"]:
         return []
 
-    def passed(start_row):
+    def check_idx(start_row):
+        """index of the node's last ActorExists before its start if the store answered 'no record', else None"""
         i = hrows.index(start_row)
-        prior = [r for r in hrows[:i] if r["ev"] == "op" and r["op"] == "ActorExists" and r["n"] == start_row["n"]]
-        return bool(prior) and prior[-1]["res"] == 0
-    return ["NonAtomicPublish"] if passed(e) and passed(other) else []
+        prior = [j for j, r in enumerate(hrows[:i]) if r["ev"] == "op" and r["op"] == "ActorExists" and r["n"] == start_row["n"]]
+        return prior[-1] if prior and hrows[prior[-1]]["res"] == 0 else None
+    c2, c1 = check_idx(e), check_idx(other)
+    if c2 is None or c1 is None:
+        return []
+    # the window: the second node checked BEFORE the first one published
+    published = [j for j, r in enumerate(hrows[:line_idx]) if r["ev"] == "op" and r["op"] == "PutActor" and r["n"] == other["n"] and r["res"] == 1]
+    if published and published[0] < c2:
+        return []
+    return ["NonAtomicPublish"]
 
 
 def run_c36(ctx, pid):
@@ -440,8 +449,8 @@ def run_c36(ctx, pid):
     fut_design = [pool.submit(tlc, tb, [], "repaired", must_hold=True, workers=2) for tb in tables]
     fut_asis = pool.submit(tlc, tables[0], ["NonAtomicPublish"], "asis", expect_fail=True, workers=2)
 
-    nsel = 150 if quick else 2000
-    nsim = 150 if quick else 2000
+    nsel = 150 if quick else 1200
+    nsim = 150 if quick else 1200
 
     def dump(tb):
         return tlc(tb, S_CODE_DEFECTS, "code-dump", invariants=("TypeOK",), view=False, dump_dot=True, workers=2)
@@ -502,7 +511,7 @@ def run_c36(ctx, pid):
     rstats = json.loads(p.stdout.strip().splitlines()[-1])
     ctx.log("replay: %s" % rstats)
     etrace = ctx.tmp("explore.ndjson")
-    pe = ctx.run([exe, "single-explore", str(200 if quick else 5000), str(ctx.seed), etrace], timeout=2400)
+    pe = ctx.run([exe, "single-explore", str(200 if quick else 3000), str(ctx.seed), etrace], timeout=2400)
     estats = json.loads(pe.stdout.strip().splitlines()[-1])
     ctx.log("explore: %s" % estats)
 
